@@ -47,7 +47,10 @@ def find(d: Def):
         fn = dotted(c.func) or (c.func.attr if isinstance(c.func, ast.Attribute) else "")
         last = fn.split(".")[-1]
         if last == "searchsorted":
-            if any(k.arg == "sorter" for k in c.keywords):
+            srt = next((k.value for k in c.keywords if k.arg == "sorter"), None)
+            if srt is not None:
+                # with sorter=S the result counts positions in the SORTED order: it addresses rows only through S[...]
+                out.append((c, srt, "sorter-use"))
                 continue
             table = c.args[0] if fn.startswith(("np.", "numpy.")) and c.args else (c.func.value if isinstance(c.func, ast.Attribute) else None)
         elif fn.startswith("bisect.") or last in ("bisect_left", "bisect_right", "insort"):
@@ -66,6 +69,15 @@ def find(d: Def):
     return out
 
 
+def _stmt_of(d, node):
+    best = None
+    for st in own_nodes(d):
+        if isinstance(st, ast.stmt) and any(x is node for x in ast.walk(st)):
+            if best is None or sum(1 for _ in ast.walk(st)) < sum(1 for _ in ast.walk(best)):
+                best = st
+    return best
+
+
 def check(ctx, col, rule: str, modules: tuple, what: str = "a binary search is made in a table that is sorted"):
     n = hits = 0
     for d in ctx.repo.all_defs():
@@ -74,7 +86,40 @@ def check(ctx, col, rule: str, modules: tuple, what: str = "a binary search is m
         n += 1
         for c, table, kind in find(d):
             hits += 1
-            if kind == "sorted":
+            if kind == "sorter-use":
+                srt = norm_src(table)
+                # is the call (or a name bound to it / to its .astype()) only ever used as an index into the sorter?
+                st = _stmt_of(d, c)
+                bound = None
+                if isinstance(st, ast.Assign) and len(st.targets) == 1 and isinstance(st.targets[0], ast.Name) and any(x is c for x in ast.walk(st.value)):
+                    inner = st.value
+                    while isinstance(inner, ast.Call) and isinstance(inner.func, ast.Attribute) and inner.func.attr in ("astype", "copy") and inner.func.value is not c:
+                        inner = inner.func.value
+                    direct_index = isinstance(st.value, ast.Subscript) and norm_src(st.value.value) == srt and any(x is c for x in ast.walk(st.value.slice))
+                    if not direct_index:
+                        bound = st.targets[0].id
+                else:
+                    direct_index = any(isinstance(p_, ast.Subscript) and norm_src(p_.value) == srt and any(x is c for x in ast.walk(p_.slice)) for p_ in own_nodes(d))
+                if bound is None:
+                    if direct_index:
+                        col.ok(rule, d.qualname, d.loc(c), what, f"positions in the sorted order are mapped back through `{srt}[...]`", stmt="searchsorted-sorter")
+                    else:
+                        col.unresolved(rule, d.qualname, d.loc(c), what, "use of the search result not followed", stmt="searchsorted-sorter")
+                else:
+                    uses = [n_ for n_ in own_nodes(d) if isinstance(n_, ast.Name) and n_.id == bound and isinstance(n_.ctx, ast.Load)]
+                    through = [p_ for p_ in own_nodes(d) if isinstance(p_, ast.Subscript) and norm_src(p_.value) == srt
+                               and any(isinstance(x, ast.Name) and x.id == bound for x in ast.walk(p_.slice))]
+                    n_through = sum(1 for p_ in through for x in ast.walk(p_.slice) if isinstance(x, ast.Name) and x.id == bound)
+                    if uses and n_through == 0:
+                        col.bad(rule, d.qualname, d.loc(c), what,
+                                f"`{norm_src(st)[:90]}`: with `sorter={srt}` the result counts positions in the SORTED order; `{bound}` is then used as it is "
+                                f"(never as `{srt}[{bound}]`), i.e. ranks are taken for row positions -- right only when the table already is in sorted order",
+                                stmt="searchsorted-sorter", definite=True)
+                    elif uses and n_through == len(uses):
+                        col.ok(rule, d.qualname, d.loc(c), what, f"`{bound}` is only used through `{srt}[...]`", stmt="searchsorted-sorter")
+                    else:
+                        col.unresolved(rule, d.qualname, d.loc(c), what, f"`{bound}` is used both through `{srt}[...]` and directly", stmt="searchsorted-sorter")
+            elif kind == "sorted":
                 col.ok(rule, d.qualname, d.loc(c), what, f"`{norm_src(table)[:50]}` is sorted by construction", stmt="searchsorted")
             elif kind == "id-column":
                 col.bad(rule, d.qualname, d.loc(c), what,
